@@ -299,6 +299,10 @@ BYE   .stringz \"!\"
 .end
 ";
 fn lock_run(out: &mut Out, run: u64, real: bool, input: &[u8], kpat: &dyn Fn(u32) -> bool, dpat: &dyn Fn(u32) -> bool, max: u32) {
+    lock_run_kinds(out, run, real, input, &|s| kpat(s) as u8, &|s| dpat(s) as u8, max)
+}
+/// Lock kinds per step: 0 free, 1 write guard held, 2 read guard held (see `M::step_locks`).
+fn lock_run_kinds(out: &mut Out, run: u64, real: bool, input: &[u8], kpat: &dyn Fn(u32) -> u8, dpat: &dyn Fn(u32) -> u8, max: u32) {
     let mut m = M::new(run, known(0, real, false), out);
     m.load(out, &assemble_src(ECHO));
     let mut keys = input.to_vec(); keys.push(0);
@@ -306,7 +310,7 @@ fn lock_run(out: &mut Out, run: u64, real: bool, input: &[u8], kpat: &dyn Fn(u32
     let mut step = 0;
     loop {
         step += 1;
-        let r = m.step(out, kpat(step), dpat(step));
+        let r = m.step_locks(out, kpat(step), dpat(step));
         if r != "ok" || step >= max { break; }
         if !real && m.sim.pc >= 0x3000 && m.sim.mem[m.sim.pc].get() == 0xF025 && m.sim.verif_prefetch() { break; }
         // real HALT: the OS routine stores to the MCR
@@ -349,6 +353,27 @@ pub fn gen_locks(a: &Args, out: &mut Out) {
         let real = chance(&mut rng, 30);
         lock_run(out, run, real, &input1, &|s| (w1 == 0 && s == p1) || (w2 == 0 && s == p2), &|s| (w1 == 1 && s == p1) || (w2 == 1 && s == p2), 600); run += 1;
     }
+    // (2b) interval holds: the guard (write or read) held over 2, 3 or 5 consecutive steps, every start position
+    for kind in [1u8, 2] {
+        for len in [2u32, 3, 5] {
+            let mut p = 1;
+            while p <= nb {
+                for which in 0..2 {
+                    let (lo, hi) = (p, p + len);
+                    if !thorough && (p + len + which) % 2 == 1 && len != 2 { continue; }
+                    lock_run_kinds(out, run, false, &input1, &|s| if which == 0 && s >= lo && s < hi { kind } else { 0 },
+                                   &|s| if which == 1 && s >= lo && s < hi { kind } else { 0 }, 800); run += 1;
+                }
+                p += if thorough { 1 } else { 2 };
+            }
+        }
+    }
+    // (2c) single-step read-guard holds
+    let mut p = 1;
+    while p <= nb {
+        for which in 0..2 { let pos = p; lock_run_kinds(out, run, false, &input1, &|s| if which == 0 && s == pos { 2 } else { 0 }, &|s| if which == 1 && s == pos { 2 } else { 0 }, 600); run += 1; }
+        p += if thorough { 1 } else { 3 };
+    }
     // (3) intervals and random patterns on longer inputs
     let n3 = if thorough { 400 } else { 30 };
     for _ in 0..n3 {
@@ -373,6 +398,44 @@ pub fn gen_devices(a: &Args, out: &mut Out) {
     set_pair_tag("none");
     let ports: [u16; 10] = [0xFE00, 0xFE02, 0xFE04, 0xFE06, 0xFE10, 0xFE11, 0xFE12, 0xFFFC, 0xFFFE, 0xFFFF];
     let bad_ports: [u16; 4] = [0x3000, 0xFDFF, 0x0000, 0x7000];
+    // scripted histories: every rejected call must leave the tables as they were
+    let regs = [InternalRegister::PC, InternalRegister::PSR, InternalRegister::MCR, InternalRegister::SavedSP];
+    let mut run0 = 0u64;
+    for &p in &[0xFFFCu16, 0xFFFE, 0xFE10, 0xFFFF] {
+        for (i, &r1) in regs.iter().enumerate() {
+            run0 += 1;
+            let mut m = M::new(10_000 + run0, SimFlags { ignore_privilege: true, ..known(0, false, false) }, out);
+            m.mmap(out, p, r1);                               // fresh address: accepted; default PSR/MCR address: rejected
+            for &r2 in &regs { if r2 != r1 { m.mmap(out, p, r2); m.read_mem(out, p, MemAccessCtx::omnipotent()); } }
+            m.write_mem(out, p, word(0x0041 + i as u16, 0xFFFF), MemAccessCtx::omnipotent());
+            m.read_mem(out, p, MemAccessCtx::omnipotent());
+            m.read_mem(out, 0xFFFC, MemAccessCtx::omnipotent()); m.read_mem(out, 0xFFFE, MemAccessCtx::omnipotent());
+            m.munmap(out, p); m.munmap(out, p);
+            m.mmap(out, p, r1); m.read_mem(out, p, MemAccessCtx::omnipotent());
+            m.end(out);
+        }
+    }
+    for variant in 0..6u32 {
+        run0 += 1;
+        let mut m = M::new(10_000 + run0, known(0, false, false), out);
+        // ids are never reused: remove the last (or a middle) device, add another, use the stale id again
+        m.add_regdev(out, &[0xFE10], 0x1111);
+        m.add_regdev(out, &[0xFE11], 0x2222);
+        let first_new = 3u16; // ids 0..2 are the fixed null / keyboard / display devices
+        let victim = if variant % 2 == 0 { first_new + 1 } else { first_new };
+        m.remove_device(out, victim);
+        m.add_regdev(out, &[0xFE12], 0x3333);
+        m.read_mem(out, 0xFE12, MemAccessCtx::omnipotent());
+        m.remove_device(out, victim);                         // stale id: must not detach the new device
+        m.read_mem(out, 0xFE12, MemAccessCtx::omnipotent());
+        m.write_mem(out, 0xFE12, word(0x4444, 0xFFFF), MemAccessCtx::omnipotent());
+        m.read_mem(out, 0xFE12, MemAccessCtx::omnipotent());
+        if variant >= 2 { m.add_regdev(out, &[0xFE10, 0xFE11], 0x5555); m.read_mem(out, 0xFE10, MemAccessCtx::omnipotent()); m.read_mem(out, 0xFE11, MemAccessCtx::omnipotent()); }
+        if variant >= 4 { m.remove_device(out, 1); m.remove_device(out, 2); m.remove_device(out, 0); m.read_mem(out, 0xFE00, MemAccessCtx::omnipotent()); m.add_regdev(out, &[0xFE00], 7); }
+        m.add_regdev(out, &[0xFE12], 0x6666);                  // occupied port: rejected, nothing changes
+        m.read_mem(out, 0xFE12, MemAccessCtx::omnipotent());
+        m.end(out);
+    }
     for k in 0..n {
         let mut m = M::new(1 + k, SimFlags { ignore_privilege: chance(&mut rng, 50), ..known(0, false, false) }, out);
         let hist = rng.random_range(5..25);
